@@ -1,6 +1,7 @@
 import Iavl.Lemmas.Versions
 import Iavl.Lemmas.Orphans2
 import Iavl.Generated.FactsOk
+import Iavl.Lemmas.VersionSharingN
 /-
   C04 — pruning safety. Two layers: (a) the version machine (the behaviour the API must show, equal
   for the versioned map and the tree machine by C01): a deletion up to `n` removes exactly the
@@ -33,6 +34,25 @@ theorem orphans_exact (v : Nat) (T T' : Node K V) (hT : Ordered T) (hT' : Ordere
     (hle : AllLe v T) (hshare : ∀ s ∈ sharedRoots v T', Sub s T) :
     diff T (sharedRoots v T') = ((pre T).filter (fun n => decide (¬ Sub n T')), []) :=
   orphans_correct v T T' hT hT' hle hshare
+
+/-- **for every history**: in every state the version machine reaches from an empty store, for every two
+    consecutive retained versions `u`, `u+1` with non-empty trees `T`, `T'`, the orphan diff that
+    `deleteVersion(u)` computes returns exactly the nodes of `T` that do not occur in `T'` (pre-order) and
+    consumes every shared root: no node a later version needs is deleted, no node only `u` used is left.
+    The hypotheses of `orphans_exact` are invariants of the machine (`step_ninv`: writes share saved
+    subtrees, a commit stamps only new nodes, every node of version `u` is persisted at or before `u`). -/
+theorem orphans_exact_of_every_history [BEq K] (iv : Option Nat) (ops : List (Op K V)) (u : Nat) (T T' : Node K V)
+    (h1 : (u, some T) ∈ (stateAfter (initT iv) ops).versions)
+    (h2 : (u + 1, some T') ∈ (stateAfter (initT iv) ops).versions) :
+    diff T (sharedRoots u T') = ((pre T).filter (fun n => decide (¬ Sub n T')), []) := by
+  have hn := stateAfter_ninv (initT iv : VState (OTree K V)) (ninv_init iv) ops
+  have hi := stateAfter_inv (initT iv : VState (OTree K V))
+    ⟨trivial, trivial, by intro q hq; simp [initT] at hq⟩ ops
+  have gT : Good T := hi.gv _ h1
+  have gT' : Good T' := hi.gv _ h2
+  refine orphans_correct u T T' gT.1 gT'.1 (hn.allLe _ h1) ?_
+  intro s hs
+  exact hn.pairs u (some T) (some T') h1 h2 s (sharedRoots_sub u T' s hs) (sharedRoots_sharedAt u T' s hs)
 end storage
 
 end Iavl.Props.C04
